@@ -243,10 +243,14 @@ def gen_case(rng, tier):
             tags.append("batch_with_negated_labels")
         if any(v and v.get("gamma") == "1" for v in batch["variants"]) and F(m["gamma"]) < 1:
             tags.append("batch_mixing_undiscounted_and_discounted")
-    return {"tags": tags, "mdp": m, "max_residual": eps, "max_iterations": mi, "batch": batch,
+    vfm = None
+    if rng.random() < .15:
+        vfm = {"int_rewards": rng.random() < .7, "int_absorbing": rng.random() < .5}
+        tags.append("via_from_matrices")
+    return {"tags": tags, "via_from_matrices": vfm, "mdp": m, "max_residual": eps, "max_iterations": mi, "batch": batch,
             "undefined_value": rng.choice(["0", "-7", "-inf", "-inf"] if gamma == "1" else ["0", "0", "-7", "-inf"]),
             "explicit_lists": rng.random() < .3, "actions_shared_list": rng.random() < .3, "int_gamma": rng.random() < .5,
-            "action_order": rng.choice(["sorted", "sorted", "desc", "shuffled"]), "action_order_seed": rng.randrange(10**6)}
+            "action_order": "sorted" if vfm else rng.choice(["sorted", "sorted", "desc", "shuffled"]), "action_order_seed": rng.randrange(10**6)}
 
 
 def mdp_terms(case, res):
